@@ -19,6 +19,8 @@ TRUSTED_BASE = [
     "MomTropFloat contract: methods are pure, builders ignore the receiver's value, field axioms",
     "IEEE-754 comparison semantics (all ordered comparisons false on NaN)",
     "unwind edges ignored (a panic aborts the sample)",
+    "helper-inlining normal form (mtsa/inline.py): splicing a single-call-site helper into its caller at MIR level, with known enum "
+    "variants threaded past the caller's test, preserves semantics; used only when the program as written raises something",
 ]
 
 
